@@ -45,19 +45,57 @@ TARGETS = cgstage.TARGETS
 # open findings: signature = targets + exception type + innermost frame + regex every offending detail must match;
 # exclusion = instruction classes removed from the generator's menu for those targets
 
-NARROW = "(?:I8|U8|I16|U16)"
+SEL = ("RuntimeError", "codegen/instructionselector.py:gen")
+N8 = "(?:I8|U8|I16|U16)"
+n8 = "(?:i8|u8|i16|u16)"
+ARM = ("arm", "arm:thumb")
+RV = ("riscv", "riscv:rvc")
 FINDINGS = [
-    {"id": "C29-KF1", "targets": ("x86_64",), "exc": "RuntimeError", "frame": "codegen/instructionselector.py:gen",
-     "detail": r"F32TOF32\(regfp32\)|F64TOF64\(regfp64\)", "classes": r"cast (f32>f32|f64>f64) "},
-    {"id": "C29-KF2", "targets": ("x86_64",), "exc": "RuntimeError", "frame": "codegen/instructionselector.py:gen",
-     "detail": r"%sTOF(32|64)\(reg(8|16)\)|F(32|64)TO%s\(regfp(32|64)\)" % (NARROW, NARROW),
-     "classes": r"cast ((i8|u8|i16|u16)>f(32|64)|f(32|64)>(i8|u8|i16|u16)) "},
+    # x86_64
+    {"id": "C29-KF1", "targets": ("x86_64",), "sig": SEL, "detail": r"F32TOF32\(regfp32\)|F64TOF64\(regfp64\)",
+     "classes": r"cast (f32>f32|f64>f64) "},
+    {"id": "C29-KF2", "targets": ("x86_64",), "sig": SEL,
+     "detail": r"%sTOF(32|64)\(reg(8|16)\)|F(32|64)TO%s\(regfp(32|64)\)" % (N8, N8),
+     "classes": r"cast (%s>f(32|64)|f(32|64)>%s) " % (n8, n8)},
+    # riscv
+    {"id": "C29-KF3", "targets": RV, "sig": SEL, "detail": r"F32TOF32\(reg\)|F64TOF64\(reg\)", "classes": r"cast (f32>f32|f64>f64) "},
+    {"id": "C29-KF4", "targets": RV, "sig": SEL,
+     "detail": r"(%s|U32)TOF(32|64)\(reg\)|F(32|64)TO(%s|U32)\(reg\)" % (N8, N8),
+     "classes": r"cast ((%s|u32)>f(32|64)|f(32|64)>(%s|u32)) " % (n8, n8)},
+    # arm / thumb
+    {"id": "C29-KF5", "targets": ARM, "sig": SEL, "detail": r"REMU32\(reg,reg\)|DIVU32\(reg,reg\)",
+     "classes": {"arm": r"binop % u32 ", "arm:thumb": r"binop [/%] u32 "}},
+    {"id": "C29-KF6", "targets": ARM, "sig": SEL, "detail": r"(I8|U8)TO(I16|U16)\(reg\)|(I16|U16)TO(I8|U8)\(reg\)",
+     "classes": r"cast ((i8|u8)>(i16|u16)|(i16|u16)>(i8|u8)) "},
+    {"id": "C29-KF7", "targets": ARM, "sig": SEL, "detail": r"(ADD|SUB)%s\(reg,reg\)" % N8, "classes": r"binop [-+] %s " % n8},
+    {"id": "C29-KF8", "targets": ("arm:thumb",), "sig": SEL, "detail": r"INV(I|U)(8|16|32)\(reg\)", "classes": r"unop ~ "},
+    {"id": "C29-KF9", "targets": ("arm:thumb",), "sig": SEL, "detail": r"MOVB\(reg,reg\)", "classes": r"store blob |arg blob |param blob |copy "},
+    {"id": "C29-KF10", "targets": ("arm:thumb",), "sig": ("KeyError", "arch/arm/thumb_instructions.py:pattern_cjmp_signed"), "detail": r"'<='",
+     "classes": r"cjmp <= (i8|i16|i32) "},
+    {"id": "C29-KF12", "targets": ("arm",), "sig": SEL, "detail": r"CONST(I8|U8)",
+     "ins": lambda ins: ins[0] == "const" and ins[2] in ("i8", "u8") and not 0 <= ins[3] < 256, "repl": lambda ins: ins[:3] + [ins[3] & 0x7F]},
+    {"id": "C29-KF11", "targets": ARM, "floats": True,
+     "sigs": [("KeyError", "arch/arch.py:get_reg_class", r"ir-typ fN"), ("KeyError", "codegen/irdag.py:new_vreg", r"ir-typ fN"), ("NotImplementedError", "codegen/irdag.py:do_return", r"Pass pointer as first arg instead"),
+              SEL + (r"\w*F(32|64)\w*(\([\w,]*\))?",)]},
 ]
 
 
-def _finding_for(target, exc, frame, item):
+def _uses_floats(case):
+    if case["kind"] == "c":
+        return bool(re.search(r"\b(float|double)\b", case["src"]))
+    return bool(re.search(r"'f(32|64)'", str(case["module"])))
+
+
+def _finding_for(case, exc, frame, item):
+    target = case["target"]
     for f in FINDINGS:
-        if target in f["targets"] and exc == f["exc"] and frame == f["frame"] and re.fullmatch(f["detail"], item):
+        if target not in f["targets"]:
+            continue
+        if f.get("floats"):
+            if _uses_floats(case) and any(exc == e and frame == fr and re.fullmatch(rx, item) for e, fr, rx in f["sigs"]):
+                return f["id"]
+            continue
+        if (exc, frame) == f["sig"] and re.fullmatch(f["detail"], item):
             return f["id"]
     return None
 
@@ -73,16 +111,26 @@ def classify(case, msg):
     if target != case.get("target"):
         return None
     items = detail[len("uncovered "):].split(" ") if detail.startswith("uncovered ") else [detail]
-    ids = [_finding_for(target, exc, frame, it) for it in items]
+    ids = [_finding_for(case, exc, frame, it) for it in items]
     if ids and all(ids):
         return sorted(ids)[0]
     return None
 
 
 def excluded_classes(target):
-    """{class regex: finding id} for the open findings that apply to target"""
+    """[(class regex, finding id)] for the open findings that apply to target"""
     open_ids = open_finding_ids(PID)
-    return [(re.compile(f["classes"]), f["id"]) for f in FINDINGS if target in f["targets"] and f.get("classes") and f["id"] in open_ids]
+    out = []
+    for f in FINDINGS:
+        if target in f["targets"] and f.get("classes") and f["id"] in open_ids:
+            rx = f["classes"][target] if isinstance(f["classes"], dict) else f["classes"]
+            out.append((re.compile(rx), f["id"]))
+    return out
+
+
+def excluded_instructions(target):
+    open_ids = open_finding_ids(PID)
+    return [f for f in FINDINGS if target in f["targets"] and f.get("ins") and f["id"] in open_ids]
 
 
 # ---------------------------------------------------------------------------
@@ -108,7 +156,15 @@ def run_case(case):
     target = case["target"]
     info = cgstage.target_info(target)
     m = build(case)
-    ok = set(info["int_types"]) | set(info["float_types"]) | {"ptr", "blob"}
+    try:
+        from ppci.irutils import verify_module
+
+        verify_module(m)
+    except Exception as e:
+        if case["kind"] == "ir":
+            raise HarnessError("generated module is not well formed: %s" % e)
+        raise Discard("front end produced ill-formed IR (%s): C28/C03" % type(e).__name__)
+    ok = set(info["int_types"]) | set(info["float_types"]) | set(info["advertised_only"]) | {"ptr", "blob"}
     bad = cgstage.module_types(m) - ok
     if bad:
         raise Discard("uses a value type the target does not list: %s" % ",".join(sorted(bad)))
@@ -146,7 +202,7 @@ def profile(target):
         _PROFILES[target] = genir.Profile(
             name="c29-" + target,
             int_types=[t for t in genir.INT_TYPES if t in info["int_types"]],
-            float_types=[t for t in genir.FLOAT_TYPES if t in info["float_types"]],
+            float_types=[t for t in genir.FLOAT_TYPES if t in info["float_types"] or (t in info["advertised_only"] and "C29-KF11" not in open_finding_ids(PID))],
             ptr_bits=info["ptr_bits"],
             rotates=any(c.startswith("binop rol") or c.startswith("binop ror") for c in allowed),
             undef=any(c.startswith("undef") for c in allowed),
@@ -170,6 +226,13 @@ def ir_case(draw, target, level, opt, counts):
             for rx, fid in excl:
                 if rx.match(c + " "):
                     counts["excluded:" + fid] += 1
+    for f in excluded_instructions(target):
+        for fd in desc["functions"]:
+            for b in fd["blocks"]:
+                for i, ins in enumerate(b["ins"]):
+                    if f["ins"](ins):
+                        b["ins"][i] = f["repl"](ins)
+                        counts["excluded:" + f["id"]] += 1
     bad = cgstage.restrict(desc, allowed, counts)
     case = {"kind": "ir", "module": desc, "target": target, "level": level, "opt": opt}
     if bad:
@@ -177,11 +240,15 @@ def ir_case(draw, target, level, opt, counts):
     return case
 
 
-FLOAT_PCT = {"x86_64": 75, "riscv": 35, "riscv:rvc": 35, "arm": 0, "arm:thumb": 0}
+FLOAT_PCT = {"x86_64": 75, "riscv": 35, "riscv:rvc": 35, "arm": 35, "arm:thumb": 35}
 
 
-def c_case(draw, target, level, opt):
+def c_case(draw, target, level, opt, counts=None):
     floats = draw(st.integers(0, 99)) < FLOAT_PCT[target]
+    if floats and target in ARM and "C29-KF11" in open_finding_ids(PID):
+        floats = False  # the arm back end has no float support at all (C29-KF11): excluded by construction
+        if counts is not None:
+            counts["excluded:C29-KF11"] += 1
     p = draw(gencc.programs(gencc.Options(floats=floats, max_funcs=2, max_stmts=6)))
     return {"kind": "c", "src": cgstage.adapt_c(p["src"], target), "target": target, "level": level, "opt": opt}
 
@@ -194,7 +261,7 @@ def case_strategy(counts, targets=TARGETS):
         opt = draw(st.sampled_from(cgstage.OPTS))
         if draw(st.integers(0, 99)) < 65:
             return ir_case(draw, target, level, opt, counts)
-        return c_case(draw, target, level, opt)
+        return c_case(draw, target, level, opt, counts)
 
     return _case()
 
